@@ -602,7 +602,14 @@ func (ff *FuncFacts) implied(v ssa.Value, pol bool, depth int) []*Atom {
 			if !pol {
 				at = negRel(at)
 			}
-			return []*Atom{at}
+			out := []*Atom{at}
+			// error φ compared with nil: only the edges that can deliver a nil (non-nil)
+			// error are compatible with the outcome, and what holds on all of them holds
+			// here (an inlined `if cond { r = err; break }; r = nil` guard, DESIGN §9.7)
+			if ph, ok := at.A.(*ssa.Phi); ok && at.B == NilMarker && (at.Rel == EQ || at.Rel == NE) && isErrorType(ph.Type()) {
+				out = append(out, ff.errPhiFacts(ph, at.Rel == EQ, depth)...)
+			}
+			return out
 		}
 	case *ssa.Call:
 		cc := x.Common()
@@ -675,6 +682,56 @@ func (ff *FuncFacts) implied(v ssa.Value, pol bool, depth int) []*Atom {
 		return []*Atom{boolAtom(v, pol)}
 	}
 	return nil
+}
+
+// errPhiFacts returns the atoms common to every incoming edge of an error-typed φ that can
+// deliver a nil (wantNil) or non-nil error.
+func (ff *FuncFacts) errPhiFacts(ph *ssa.Phi, wantNil bool, depth int) []*Atom {
+	if ff.in == nil {
+		return nil
+	}
+	var acc map[string]*Atom
+	first := true
+	for i, e := range ph.Edges {
+		pred := ph.Block().Preds[i]
+		if ff.in[pred.Index] == nil {
+			continue // unreachable predecessor
+		}
+		kind := ff.classifyErrOnEdge(e, pred, ph.Block(), map[ssa.Value]bool{})
+		if wantNil && kind == ExitError {
+			continue
+		}
+		if !wantNil && kind == ExitSuccess {
+			continue
+		}
+		set := map[string]*Atom{}
+		for k, a := range ff.in[pred.Index] {
+			set[k] = a
+		}
+		for _, a := range ff.edgeFacts(pred, ph.Block(), depth+1) {
+			set[ff.key(a)] = a
+		}
+		if inner, ok := ff.Fwd(e).(*ssa.Phi); ok && inner != ph && depth < 4 && isErrorType(inner.Type()) {
+			for _, a := range ff.errPhiFacts(inner, wantNil, depth+1) {
+				set[ff.key(a)] = a
+			}
+		}
+		if first {
+			acc, first = set, false
+			continue
+		}
+		for k := range acc {
+			if _, ok := set[k]; !ok {
+				delete(acc, k)
+			}
+		}
+	}
+	var out []*Atom
+	for _, a := range acc {
+		out = append(out, a)
+	}
+	sort.Slice(out, func(i, j int) bool { return ff.key(out[i]) < ff.key(out[j]) })
+	return out
 }
 
 // zeroNorm maps the zero constructors of cosmossdk.io/math to the zero marker, so that
